@@ -88,6 +88,29 @@ def main():
         obs('err.fromdict.missing', lambda: C.Context.fromdict({'objects': ('a',)}))
         obs('err.fromdict.nonstring', lambda: C.Context.fromdict({'objects': ('a', 1, None), 'properties': ('x',),
                                                                  'context': [(), (), ()]}))
+    # unions / intersections of large definitions (more than 64 / 128 names per axis)
+    if shard in (1, 2):
+        big = names('o', 150 if shard == 1 else 90)
+        bigp = names('p', 140 if shard == 1 else 70)
+        rng = random.Random(f'{seed}:big:{shard}')
+        d1 = C.Definition(big[:100], bigp[:80], [tuple(rng.random() < 0.3 for _ in range(80)) for _ in range(100)])
+        o2 = big[50:] + big[:10]
+        p2 = bigp[40:] + bigp[:5]
+        d2 = C.Definition(o2, p2, [tuple((d1[o, p] if o in big[:100] and p in bigp[:80] else rng.random() < 0.3)
+                                         for p in p2) for o in o2])
+        obs('big.union', lambda: repr(d1.union(d2).objects) + repr(d1.union(d2).properties) + d1.union(d2).crc32())
+        obs('big.or', lambda: repr((d2 | d1).objects) + (d2 | d1).crc32())
+        obs('big.inters', lambda: repr((d1 & d2).objects) + repr((d1 & d2).properties) + (d1 & d2).crc32())
+        obs('big.take', lambda: repr(d1.take(big[90:40:-1], bigp[70:10:-2], reorder=True)))
+
+        def upd():
+            e = d1.copy()
+            e |= d2
+            e.add_object('zz', bigp[100:130])
+            e.set_property('yy', big[100:145])
+            return repr(e.objects) + repr(e.properties) + e.crc32()
+        obs('big.ior', upd)
+        obs('big.context', lambda: C.Context(*d1.union(d2)).crc32())
     # definition edit histories with several new names per call
     nh = 40 if tier == 'quick' else 400
     pool_o, pool_p = names('o', 14), names('p', 14)
